@@ -158,7 +158,7 @@ def h_transparent(t, part):
     n = part['n']
     plan = []
     for k in range(n):
-        op = t.choice(8)
+        op = t.choice(9)
         plan.append((op, t.choice(2), t.int(-2, 2)))
 
     def run(instrumented):
@@ -209,6 +209,10 @@ def h_transparent(t, part):
                 api(lambda: w.s.enter_room(sid, 'room'))
             elif op == 1:
                 api(lambda: w.s.leave_room(ever[e], 'room'))       # also for a client that has gone
+            elif op == 8:
+                if instrumented and with_admin:
+                    w.open('a1')
+                    w.connect('a1', ADMIN)                              # another admin logs in later
             elif op == 7:
                 for e2 in es:                                           # the namespace empties
                     if live[e2]:
@@ -296,7 +300,7 @@ META = dict(
                 'calls, callback firings and rooms are compared.',
     bounds={'quick': 'gate: 12 payload shapes x 5 configurations (x 4x3 predicate answer values); read-only: 4 requests x 4 '
                      'targets x modes; transparency: 2 application operations from {enter, leave, emit to room with '
-                     'skip_sid, emit with callback + ACK, client event with/without ack, DISCONNECT, close_room, every client leaving}, admin '
+                     'skip_sid, emit with callback + ACK, client event with/without ack, DISCONNECT, close_room, every client leaving, a further admin login}, admin '
                      'connected or not, development and production/read-only',
             'thorough': 'gate in all four mode combinations; transparency with 3 operations'},
     outside=['the periodic server_stats task (timer driven; never scheduled by the stub)', 'engine.io level counters '
